@@ -96,7 +96,7 @@ var openMethods = []string{
 	"MKCALENDAR", "MKADDRESSBOOK", "MKACTIVITY", "MKWORKSPACE", "MKREDIRECTREF", "MKRESOURCE", "MKCOLLECTION",
 	"BIND", "UNBIND", "REBIND", "LINK", "UNLINK", "PATCH", "POST", "LOCK", "UNLOCK", "ACL", "SEARCH", "ORDERPATCH",
 	"UPDATE", "CHECKIN", "CHECKOUT", "UNCHECKOUT", "VERSION-CONTROL", "BASELINE-CONTROL", "LABEL", "MERGE", "TRACE", "PURGE", "QUERY",
-	"mkcol", "mkcalendar", "Mkcol", "propfind", "report", "get", "options", "FROB", "X-WHATEVER", "M-SEARCH", "CREATE", "NEW",
+	"mkcol", "mkcalendar", "Mkcol", "propfind", "report", "get", "options", "X-WHATEVER", "M-SEARCH", "CREATE", "NEW",
 }
 
 func openForms() []reqForm {
@@ -214,6 +214,10 @@ func randCase(r *rand.Rand) Case {
 		// bias towards the rows with teeth
 		f = []reqForm{{"PROPFIND", "allprop", "1"}, {"PROPFIND", "prop", "0"}, {"MKCOL", "empty", ""}, {"DELETE", "", ""}, {"PUT", "if-match", ""}, {"GET", "", ""}}[r.Intn(6)]
 	}
+	if r.Intn(5) == 0 {
+		of := openForms()
+		f = of[r.Intn(len(of))]
+	}
 	cs.Method, cs.Form, cs.Depth = f.method, f.form, f.depth
 	cl := cells[r.Intn(len(cells))]
 	cs.Level, cs.Target = cl.level, cl.target
@@ -275,11 +279,6 @@ func run(c *fw.Ctx) {
 									idx++
 									nStruct++
 								}
-								// The same decoded path under equivalent escapings of
-								// the request target, for the rows with teeth.
-								if (cl.level == 0 && plen == 0) || sti != (nsi+plen+1)%len(layStyles) {
-									continue // "/" has no other spelling; the backend's layout style does not matter here: one per (name set, prefix)
-								}
 								if sti == (nsi+plen+2)%len(layStyles) {
 									// the open method axis, one layout style per (name set, prefix)
 									for _, f := range oforms {
@@ -292,6 +291,11 @@ func run(c *fw.Ctx) {
 										idx++
 										nOpen++
 									}
+								}
+								// The same decoded path under equivalent escapings of
+								// the request target, for the rows with teeth.
+								if (cl.level == 0 && plen == 0) || sti != (nsi+plen+1)%len(layStyles) {
+									continue // "/" has no other spelling; the backend's layout style does not matter here: one per (name set, prefix)
 								}
 								for _, f := range respelledForms {
 									for _, sp := range spellings {
@@ -326,8 +330,9 @@ func run(c *fw.Ctx) {
 	c.Note("exhaustive_part", fmt.Sprintf("structural product enumerated completely: 2 servers x %d name sets (plain, hostile, all-segments-equal) x prefix of 0..3 segments x 2 spellings of Handler.Prefix x %d backend layout styles "+
 		"x {%d (level,target) cells x 2 trailing-slash spellings x %d request forms (16 methods/variants + PROPFIND 3 bodies x 4 Depth values) = %d requests; %d client discovery chains from 4 entry points}; "+
 		"%d requests repeat the rows with teeth (%d request forms) under 3 equivalent escapings of the request target (every byte %%XX upper-case, every byte %%xx lower-case, first byte of each segment escaped + sub-delims raw); "+
-		"%d multi-user sessions (one handler, two users from the request context: chains and %d requests alternating A,B, then the same concurrently)",
-		len(nameSets), len(layStyles), len(cells), len(forms), nStruct, nChain, nSpell, len(respelledForms), nMulti, len(sessionSteps(&Case{}))))
+		"%d multi-user sessions (one handler, two users from the request context: chains and %d requests alternating A,B, then the same concurrently); "+
+		"%d requests of the open method axis (%d further method tokens, %d forms counting those repeated with a creation-style body, every cell, one layout style per name set and prefix)",
+		len(nameSets), len(layStyles), len(cells), len(forms), nStruct, nChain, nSpell, len(respelledForms), nMulti, len(sessionSteps(&Case{})), nOpen, len(openMethods), len(oforms)))
 
 	// Random names and random cells on top.
 	n := c.Pick(40000, 600000)
@@ -381,6 +386,9 @@ func post(m *fw.Merged) {
 		need(s, "PUT", 4)
 		need(s, "DELETE", 4)
 		need(s, "REPORT", 3)
+		for _, om := range openMethods {
+			need(s, om, 0, 1, 2, 3, 4, 5)
+		}
 		for _, st := range []string{"principal", "home-set", "collections", "query", "multiget", "get"} {
 			for _, e := range entries {
 				if m.Obs["chain_steps"][fmt.Sprintf("%s|%s|entry=%s|ok", s, st, e)] == 0 {
@@ -439,6 +447,7 @@ func init() {
 			"Structural product (enumerated completely, both tiers): server x 3 fixed name sets x prefix of 0..3 segments x both spellings of Handler.Prefix x 3 layout styles x (level 0..5, own/foreign/missing target) x trailing-slash spelling x every request form; " +
 			"plus the client discovery chain (FindCurrentUserPrincipal, Find*HomeSet, Find*s, Query*, MultiGet*, Get*Object) over net/http's client and an in-process transport from 4 entry points (well-known URI, prefix root in both spellings, principal). " +
 			"The rows with teeth are repeated under three equivalent escapings of the request target (the decoded path is identical; RFC 3986 6.2.2). " +
+			"Open method axis: every cell is also sent under further method tokens (MKCALENDAR, MKADDRESSBOOK, MKACTIVITY, BIND, LINK, PATCH, POST, LOCK, ACL, SEARCH, lower-case spellings, made-up tokens, with and without a creation-style body) and judged by backend effect only: whatever the status, the backend is asked to create a collection only by a request at collection depth and for the request path; other mutations must belong to the level addressed. This creation rule holds for every method except MKCOL (own row) and COPY/MOVE (left open). " +
 			"Multi-user family: ONE handler whose backend takes the user from the request context serves users A and B alternately, then concurrently (requests and discovery chains); every request is judged for its own user, and nothing of the other user may show. " +
 			"Random part: seeded random hostile segment names (spaces, %, ?, #, unicode, dots, controls, invalid UTF-8), random layouts and random cells (levels up to 7). " +
 			"Oracle: DESIGN.md appendix C (level -> backend operation, path argument byte-identical to the request path); cells the table leaves open are executed and tabulated but not judged. " +
@@ -451,6 +460,7 @@ func init() {
 			"CardDAV DELETE outside address-book/object level: any non-2xx status is accepted (the statement names 403 only for collection creation); 403 vs other is tabulated",
 			"levels below object level: nothing of the user's resources may be shown and nothing mutated; status and read-only backend calls are left open",
 			"the recording backend double answers lookups by exact path and accepts every mutation",
+			"method tokens outside the table: every status is accepted; only backend effects are judged (an add-member style PutObj below a collection path is accepted at collection depth)",
 			"multi-user family: a response may repeat the request path as an href even when that path belongs to the other user; any other href or content of the other user counts as exposure",
 			"the path a PUT reports back to the client (Location) is tabulated, not judged (not part of the statement's chain)",
 		},
